@@ -51,43 +51,38 @@ def contracts():
             // admitted only if every limit has room, measured at the clock on return
             r ==> forall|l: int| 0 <= l < self.lim().len() ==>
                 newer(self.log(), final(w).clock - (#[trigger] self.lim()[l]).1).len() < self.lim()[l].0, //@C09.ra_sound
-            // refused only if some limit had no room even over the larger window measured at entry,
-            // or its window start is not representable
+            // refused only if some limit had no room even over the larger window measured at entry:
+            // requests are not withheld while every limit has room, whatever the period
             !r ==> exists|l: int| 0 <= l < self.lim().len() &&
-                (newer(self.log(), old(w).clock - (#[trigger] self.lim()[l]).1).len() >= self.lim()[l].0
-                 || old(w).clock - self.lim()[l].1 < inst_floor()), //@C09.ra_complete
+                newer(self.log(), old(w).clock - (#[trigger] self.lim()[l]).1).len() >= self.lim()[l].0, //@C09.ra_complete,C19.huge_period_does_not_block_forever
 """, loops={1: """
     invariant w.admissions == old(w).admissions, w.net == old(w).net, w.fs == old(w).fs, w.clock >= old(w).clock, self.wf_limits(),
         forall|l: int| 0 <= l < iter.index@ ==>
             newer(self.log(), w.clock - (#[trigger] self.lim()[l]).1).len() < self.lim()[l].0,
 """},
             at=[("before", "self.limits.iter()", 1, "iter:"),
-                ("before_stmt", "Instant::now()", 1, "let ghost clock_before = w.clock;"),
+                ("loop_start", None, 1, "let ghost clock_before = w.clock;"),
+                ("before_stmt", "if nb_req", 1, """
+                    proof {
+                        let l = iter.index@;
+                        assert(self.lim()[l] == ((*max_allowed) as int, dur(*duration) as int));
+                        let m = w.clock - self.lim()[l].1;
+                        // nb_req is the number of logged instants inside the window, in both branches of the match
+                        let p = |t: Instant| inst(t) > m;
+                        lemma_filter_map(self.query_log@, p, inst_fn(), m);
+                        assert(self.query_log@.filter(p).map_values(inst_fn()).len() == self.query_log@.filter(p).len());
+                        if m < inst_floor() { lemma_all_newer(self.query_log@, m); }
+                        assert(nb_req == newer(self.log(), m).len());
+                        if nb_req >= *max_allowed {
+                            lemma_newer_antitone(self.log(), old(w).clock - self.lim()[l].1, m);
+                        }
+                    }"""),
                 ("after_stmt", "if nb_req", 1, """
                     proof {
                         assert forall|l: int| 0 <= l < iter.index@ + 1 implies
                             newer(self.log(), w.clock - (#[trigger] self.lim()[l]).1).len() < self.lim()[l].0 by {
                             lemma_newer_antitone(self.log(), clock_before - self.lim()[l].1, w.clock - self.lim()[l].1);
                         }
-                    }"""),
-                ("before_stmt", "if nb_req", 1, """
-                    proof {
-                        let l = iter.index@;
-                        assert(self.lim()[l] == ((*max_allowed) as int, dur(*duration) as int));
-                        let p = |t: Instant| inst(t) > inst(max_date);
-                        assert(nb_req == self.query_log@.filter(p).len());
-                        lemma_filter_map(self.query_log@, p, inst_fn(), inst(max_date));
-                        assert(self.query_log@.filter(p).map_values(inst_fn()).len() == self.query_log@.filter(p).len());
-                        assert(nb_req == newer(self.log(), w.clock - self.lim()[l].1).len());
-                        if nb_req >= *max_allowed {
-                            lemma_newer_antitone(self.log(), old(w).clock - self.lim()[l].1, w.clock - self.lim()[l].1);
-                        }
-                    }"""),
-                ("after_open", "None =>", 1, """
-                    proof {
-                        let l = iter.index@;
-                        assert(self.lim()[l] == ((*max_allowed) as int, dur(*duration) as int));
-                        assert(old(w).clock - self.lim()[l].1 < inst_floor());
                     }"""),
                 ],
             rewrites=[NOW,
@@ -210,6 +205,25 @@ pub fn parse_duration(input: &str) -> Result<Duration, Error> { unimplemented!()
 
 
 SPEC = """
+// a window that starts before the oldest representable instant contains every logged instant
+pub proof fn lemma_all_newer(s: Seq<Instant>, m: int)
+    requires m < inst_floor()
+    ensures newer(s.map_values(inst_fn()), m) == s.map_values(inst_fn())
+    decreases s.len()
+{
+    let l = s.map_values(inst_fn());
+    if s.len() == 0 {
+        reveal(Seq::filter);
+        assert(newer(l, m) =~= l);
+    } else {
+        lemma_all_newer(s.drop_last(), m);
+        assert(l.drop_last() =~= s.drop_last().map_values(inst_fn()));
+        lemma_newer_step(l, m);
+        inst_lower_bound(s.last());
+        assert(l.last() == inst(s.last()));
+        assert(l.drop_last().push(l.last()) =~= l);
+    }
+}
 pub open spec fn inst_fn() -> spec_fn(Instant) -> int { |i: Instant| inst(i) }
 pub open spec fn lim_fn() -> spec_fn((usize, Duration)) -> (int, int) { |p: (usize, Duration)| (p.0 as int, dur(p.1) as int) }
 pub open spec fn all_positive(s: Seq<(usize, Duration)>) -> bool {
